@@ -212,6 +212,13 @@ out:
  *
  *-------------------------------------------------------------------------
  */
+/* the cosequential match needs both lists in name order */
+static int
+cmp_obj_name(const void *a, const void *b)
+{
+    return strcmp(((const dobj_info_t *)a)->obj_name, ((const dobj_info_t *)b)->obj_name);
+}
+
 uint32
 match(uint32 nobjects1, dtable_t *list1, uint32 nobjects2, dtable_t *list2, int32 sd1_id, int32 gr1_id,
       int32 file1_id, int32 sd2_id, int32 gr2_id, int32 file2_id, diff_opt_t *opt)
@@ -231,6 +238,12 @@ match(uint32 nobjects1, dtable_t *list1, uint32 nobjects2, dtable_t *list2, int3
      *-------------------------------------------------------------------------
      */
     match_table_init(&mattbl);
+
+    /* the lists come in file order; the cosequential match below pairs objects only if both are in name order */
+    if (nobjects1 > 1)
+        qsort(list1->objs, nobjects1, sizeof(dobj_info_t), cmp_obj_name);
+    if (nobjects2 > 1)
+        qsort(list2->objs, nobjects2, sizeof(dobj_info_t), cmp_obj_name);
 
     while (more_names_exist) {
         cmp = strcmp(list1->objs[curr1].obj_name, list2->objs[curr2].obj_name);
